@@ -74,6 +74,15 @@ class SymComplex:
 
     __radd__ = __add__
 
+    def __neg__(self):
+        return SymComplex(-self.real, -self.imag)
+
+    def __sub__(self, o):
+        return self + (-SymComplex.of(o))
+
+    def __rsub__(self, o):
+        return SymComplex.of(o) + (-self)
+
     def __mul__(self, o):
         o = SymComplex.of(o)
         return SymComplex(self.real * o.real - self.imag * o.imag, self.real * o.imag + self.imag * o.real)
@@ -299,7 +308,7 @@ def check(c, st, name, key, inputs, assume, call, expected, raise_cond=None, rel
         if len(got) != len(expected):
             return True, dict(detail, expected_len=len(expected))
         want = [model_value(m, e) for e in expected]
-        bad = [(i, float(g), w) for i, (g, w) in enumerate(zip(got, want)) if abs(float(g) - w) > rel * max(1.0, abs(w)) * 10]
+        bad = [(i, float(g), w) for i, (g, w) in enumerate(zip(got, want)) if abs(float(g) - w) > 10 * rel * max(abs(float(g)), abs(w)) + 1e-300]
         return bool(bad), dict(detail, mismatches=bad[:5], want=want[:12])
 
     return _explore(c, name, fn, post, assume, replay, key, max_paths)
